@@ -17,6 +17,7 @@ SPELL = ['rel', 'abs', 'trail1', 'trail2', 'trail3', 'abs_trail',
 def config(tier):
     return {
         'level': 'exploration',
+        'cold_sample': 4 if tier == 'quick' else 30,
         'real_sample': 8 if tier == 'quick' else 60,
         'cases': 3500 if tier == 'quick' else 80000,
         'budget_s': 45 if tier == 'quick' else 560,
